@@ -26,6 +26,7 @@ STUBS = [
     'WSGI server = engine.envmodels.wsgi_call (calls close() on the returned iterable exactly as PEP 3333 demands); optional '
     'wsgi.file_wrapper model; ASGI server = trampoline driver whose k-th send() can raise',
     'status values come from a menu (int, str line, http.HTTPStatus, unknown code); text/data content is symbolic',
+    "file-like response streams hold b'abc' and hand out at most 2 bytes per read() (short reads before EOF, like a pipe)",
 ]
 OUTSIDE = ['SSE emitters (need a real event loop for the disconnect watcher)', 'custom response classes', 'more than 2 stream chunks',
            'media handlers other than JSON']
@@ -83,7 +84,9 @@ class FileLike:
             raise _Fail('read failed')
         if size is None or size < 0:
             size = len(self.d)
-        r = self.d[self.p:self.p + size]
+        # a pipe-like source: at most 2 bytes per call, i.e. short reads before the end of the data (read() may always
+        # return fewer bytes than asked for; only b'' means EOF)
+        r = self.d[self.p:self.p + min(size, 2)]
         self.p += len(r)
         return r
 
